@@ -123,11 +123,11 @@ Qed.
 
 Lemma l_evict_lastid c u : l_lastid (l_evict c u) = l_lastid c. Proof. reflexivity. Qed.
 
-Lemma lsub_same k root f s c n sid u ns h :
-  lsub k root f s c n sid u ns = Some h -> nsame s (lh_st h) /\ l_lastid (lh_ca h) = l_lastid c.
+Lemma lsub_same k root f s c n sid u ns :
+  nsame s (lh_st (lsub k root f s c n sid u ns)) /\ l_lastid (lh_ca (lsub k root f s c n sid u ns)) = l_lastid c.
 Proof.
-  unfold lsub. intros H.
-  repeat (break_match_hyp; try discriminate); inv H; cbn [lh_st lh_ca];
+  unfold lsub.
+  repeat break_match; cbn [lh_st lh_ca];
     repeat match goal with |- context [if ?b then _ else _] => destruct b end;
     cbn [l_lastid l_set_sess l_set_users l_evict]; split;
     first [reflexivity | apply nsame_refl | apply nsame_sub_create | apply nsame_subs_update].
@@ -243,8 +243,8 @@ Proof.
   intros m Hm. apply A in Hm. lia.
 Qed.
 
-Lemma lload_inv k ua ub f s n u s' c n' ns :
-  sinv s -> lload k ua ub f s n u = LOk s' c n' ns -> sinv s' /\ cinv s' c.
+Lemma lload_inv k f s n u other s' c n' ns :
+  sinv s -> lload k f s n u other = LOk s' c n' ns -> sinv s' /\ cinv s' c.
 Proof.
   intros I H. unfold lload in H. destruct k.
   - apply init_p2p_ok in H. destruct H as [H1 [_ [_ [H2 [H3 H4]]]]].
@@ -263,7 +263,7 @@ Lemma boot_inv k s : sinv s -> match boot k s with Some c => cinv s c | None => 
 Proof.
   intros I. unfold boot. destruct k; [exact Logic.I|].
   destruct (init_sys NoFault s 0) as [code n1|s1 c n1 ns] eqn:E; [exact Logic.I|].
-  pose proof (lload_inv LSys 0%N 0%N NoFault s 0 0%N s1 c n1 ns I E) as [_ H].
+  pose proof (lload_inv LSys NoFault s 0 0%N 0%N s1 c n1 ns I E) as [_ H].
   apply init_sys_ok in E. destruct E as [-> _]. exact H.
 Qed.
 
@@ -297,28 +297,18 @@ Lemma lstep_inv f x o : linv x -> linv (fst (lstep k sm roots ua ub f x o)).
 Proof.
   intros [S C]. destruct x as [s cx n0]. cbn [x_st x_ca] in *.
   assert (forall n1, linv (mkLS s cx n1)) as KEEP by (intros n1; split; assumption).
-  assert (forall s1 n1 r, sinv s1 ->
-            (forall h, r = Some h -> nsame s1 (lh_st h) /\ exists c1, cinv s1 c1 /\ l_lastid (lh_ca h) = l_lastid c1) ->
-            linv (fst (match r with
-                       | Some h => (mkLS (lh_st h) (Some (lh_ca h)) (lh_n h), lh_out h)
-                       | None => (mkLS s1 None n1, [(0%N, LPanic)])
-                       end))) as SUB.
-  { intros s1 n1 r S1 H. destruct r as [h|]; cbn [fst].
-    - destruct (H h eq_refl) as [N [c1 [C1 L]]]. split; cbn [x_st x_ca].
-      + eapply sinv_nsame; eassumption.
-      + eapply cinv_nsame; eassumption.
-    - split; [exact S1|exact Logic.I]. }
+  assert (forall s1 c1 h, sinv s1 -> cinv s1 c1 -> nsame s1 (lh_st h) /\ l_lastid (lh_ca h) = l_lastid c1 ->
+            linv (mkLS (lh_st h) (Some (lh_ca h)) (lh_n h))) as SUB.
+  { intros s1 c1 h S1 C1 [N L]. split; cbn [x_st x_ca]; [eapply sinv_nsame; eassumption|eapply cinv_nsame; eassumption]. }
   destruct o; unfold lstep; cbn [x_st x_ca].
   - (* LSub *)
     destruct cx as [c|].
     + destruct (lattached c sid); cbn [fst]; [apply KEEP|].
-      apply (SUB s 0%nat); [exact S|]. intros h Hh. apply lsub_same in Hh. destruct Hh as [H1 H2].
-      split; [exact H1|]. exists c. split; assumption.
-    + destruct (lload k ua ub f s 0 (sess_uid sm sid)) as [code n1|s1 c n1 ns] eqn:LD; cbn [fst].
+      apply (SUB s c); [exact S|exact C|apply lsub_same].
+    + destruct (lload k f s 0 (sess_uid sm sid) (if byname then 0%N else peer ua ub (sess_uid sm sid))) as [code n1|s1 c n1 ns] eqn:LD; cbn [fst].
       * apply KEEP.
-      * destruct (lload_inv k ua ub f s 0 _ s1 c n1 ns S LD) as [S1 C1].
-        apply (SUB s1 n1); [exact S1|]. intros h Hh. apply lsub_same in Hh. destruct Hh as [H1 H2].
-        split; [exact H1|]. exists c. split; assumption.
+      * destruct (lload_inv k f s 0 _ _ s1 c n1 ns S LD) as [S1 C1].
+        apply (SUB s1 c); [exact S1|exact C1|apply lsub_same].
   - (* LLeave *)
     destruct cx as [c|]; [destruct (lattached c sid)|]; cbn [fst]; try apply KEEP.
     destruct unsub; cbn [fst].
@@ -374,7 +364,7 @@ Definition lframe_seqs (fr : lframe) : list Z :=
   end.
 Definition lout_seqs (o : lout) : list Z := flat_map (fun e => lframe_seqs (snd e)) o.
 Definition lshown_le (bound : Z) (o : lout) : Prop := forall n, In n (lout_seqs o) -> n <= bound.
-Definition lplain (fr : lframe) : bool := match fr with LCtrl _ None => true | LPanic => true | _ => false end.
+Definition lplain (fr : lframe) : bool := match fr with LCtrl _ None => true | _ => false end.
 Definition all_lout (P : lframe -> bool) (o : lout) : Prop := forall e, In e o -> P (snd e) = true.
 
 Lemma all_lout_nil P : all_lout P []. Proof. intros e []. Qed.
@@ -383,17 +373,15 @@ Proof. intros H e [<-|[]]. exact H. Qed.
 Lemma lplain_shown b o : all_lout lplain o -> lshown_le b o.
 Proof.
   intros H n Hn. unfold lout_seqs in Hn. apply in_flat_map in Hn. destruct Hn as [e [He Hn]].
-  specialize (H e He). destruct (snd e) as [code [m|]| | |]; cbn in *; try discriminate; destruct Hn.
+  specialize (H e He). destruct (snd e) as [code [m|]| |]; cbn in *; try discriminate; destruct Hn.
 Qed.
 Lemma lshown_le_app b a c : lshown_le b a -> lshown_le b c -> lshown_le b (a ++ c).
 Proof. intros H1 H2 n Hn. unfold lout_seqs in Hn. rewrite flat_map_app in Hn. apply in_app_or in Hn. destruct Hn; auto. Qed.
 Lemma lshown_le_mono b b' o : b <= b' -> lshown_le b o -> lshown_le b' o.
 Proof. intros H1 H2 n Hn. specialize (H2 n Hn). lia. Qed.
 
-Lemma lsub_out k root f s c n sid u ns h : lsub k root f s c n sid u ns = Some h -> all_lout lplain (lh_out h).
-Proof.
-  unfold lsub. intros H. repeat (break_match_hyp; try discriminate); inv H; cbn [lh_out]; apply all_lout_one; reflexivity.
-Qed.
+Lemma lsub_out k root f s c n sid u ns : all_lout lplain (lh_out (lsub k root f s c n sid u ns)).
+Proof. unfold lsub. repeat break_match; cbn [lh_out]; apply all_lout_one; reflexivity. Qed.
 Lemma lleave_unsub_out k f s c n sid u s1 co n1 o1 : lleave_unsub k f s c n sid u = (s1, co, n1, o1) -> all_lout lplain o1.
 Proof.
   unfold lleave_unsub. intros H. repeat (break_match_hyp; try discriminate); inv H; apply all_lout_one; reflexivity.
@@ -463,35 +451,24 @@ Proof.
   assert (forall m, In m (seqs s) -> m <= t_seqid s) as SA by (destruct S as [H _]; intros m Hm; apply H in Hm; lia).
   assert (forall code sid, lshown_le (t_seqid s) [(sid, LCtrl code None)]) as PL
     by (intros; apply lplain_shown; apply all_lout_one; reflexivity).
-  assert (forall s1 n1 r b, (forall h, r = Some h -> nsame s1 (lh_st h)) -> b <= t_seqid s1 -> 0 <= t_seqid s1 ->
-            let q := match r with
-                     | Some h => (mkLS (lh_st h) (Some (lh_ca h)) (lh_n h), lh_out h)
-                     | None => (mkLS s1 None n1, [(0%N, LPanic)])
-                     end in
-            (forall h, r = Some h -> all_lout lplain (lh_out h)) ->
-            lshown_le (t_seqid (x_st (fst q))) (snd q) /\ b <= t_seqid (x_st (fst q))) as SUB.
-  { intros s1 n1 r b H Hb H0 q HO. subst q. destruct r as [h|]; cbn [fst snd x_st lh_st lh_out].
-    - destruct (H h eq_refl) as [_ [E _]]. rewrite E. split; [apply lplain_shown; apply HO; reflexivity|exact Hb].
-    - split; [apply lplain_shown; apply all_lout_one; reflexivity|exact Hb]. }
   destruct o; unfold lstep; cbn [x_st x_ca].
   - (* LSub *)
     destruct cx as [c|].
     + destruct (lattached c sid); cbn [fst snd x_st lh_st lh_out]; [split; [apply PL|lia]|].
-      destruct (SUB s 0%nat (lsub k (is_root roots (sess_uid sm sid)) f s c 0 sid (sess_uid sm sid)
-                  match alookup (sess_uid sm sid) (l_users c) with Some p => lp_deleted p | None => true end) (t_seqid s)) as [H1 H2];
-        try lia; [intros h Hh; apply lsub_same in Hh; tauto|intros h Hh; eapply lsub_out; exact Hh|].
-      split; [exact H1|intros _; exact H2].
-    + destruct (lload k ua ub f s 0 (sess_uid sm sid)) as [code n1|s1 c n1 ns] eqn:LD; cbn [fst snd x_st lh_st lh_out]; [split; [apply PL|lia]|].
-      assert (t_seqid s <= t_seqid s1 /\ 0 <= t_seqid s1) as [M1 M0].
+      destruct (lsub_same k (is_root roots (sess_uid sm sid)) f s c 0 sid (sess_uid sm sid)
+                  match alookup (sess_uid sm sid) (l_users c) with Some p => lp_deleted p | None => true end) as [[_ [N _]] _].
+      rewrite N. split; [apply lplain_shown; apply lsub_out|lia].
+    + destruct (lload k f s 0 (sess_uid sm sid) (if byname then 0%N else peer ua ub (sess_uid sm sid))) as [code n1|s1 c n1 ns] eqn:LD;
+        cbn [fst snd x_st lh_st lh_out]; [split; [apply PL|lia]|].
+      assert (t_seqid s <= t_seqid s1) as M1.
       { unfold lload in LD. destruct k.
         - apply init_p2p_ok in LD. destruct LD as [_ [_ [_ [_ [_ H]]]]]. destruct (t_exists s) eqn:EX.
           + destruct H as [H _]. rewrite H. lia.
           + destruct S as [_ [_ [_ D]]]. destruct (D EX) as [_ D2]. destruct H as [H _]. rewrite H, D2. lia.
         - apply init_sys_ok in LD. destruct LD as [-> _]. lia. }
-      destruct (SUB s1 n1 (lsub k (is_root roots (sess_uid sm sid)) f s1 c n1 sid (sess_uid sm sid)
-                  (ns || match alookup (sess_uid sm sid) (l_users c) with Some p => lp_deleted p | None => true end)) (t_seqid s)) as [H1 H2];
-        try lia; [intros h Hh; apply lsub_same in Hh; tauto|intros h Hh; eapply lsub_out; exact Hh|].
-      split; [exact H1|intros _; exact H2].
+      destruct (lsub_same k (is_root roots (sess_uid sm sid)) f s1 c n1 sid (sess_uid sm sid)
+                  (ns || match alookup (sess_uid sm sid) (l_users c) with Some p => lp_deleted p | None => true end)) as [[_ [N _]] _].
+      rewrite N. split; [apply lplain_shown; apply lsub_out|intros _; exact M1].
   - (* LLeave *)
     destruct cx as [c|]; [destruct (lattached c sid)|]; cbn [fst snd x_st lh_st lh_out]; try (split; [apply PL|lia]).
     destruct unsub; cbn [fst snd x_st lh_st lh_out]; [|split; [apply PL|lia]].
@@ -580,9 +557,10 @@ Lemma lstep_load_lastid f x o c' :
 Proof.
   destruct x as [s cx n0]. cbn [x_ca]. intros -> H. revert H.
   destruct o; unfold lstep; cbn [x_st x_ca].
-  - destruct (lload k ua ub f s 0 (sess_uid sm sid)) as [code n1|s1 c n1 ns] eqn:LD; cbn [fst x_ca x_st]; [discriminate|].
-    destruct (lsub k _ f s1 c n1 sid _ _) as [h|] eqn:LS; cbn [fst x_ca x_st]; [|discriminate].
-    intros H. inv H. apply lsub_same in LS. destruct LS as [[_ [N _]] L]. rewrite L, N.
+  - destruct (lload k f s 0 (sess_uid sm sid) (if byname then 0%N else peer ua ub (sess_uid sm sid))) as [code n1|s1 c n1 ns] eqn:LD; cbn [fst x_ca x_st]; [discriminate|].
+    intros H. inv H.
+    match goal with |- l_lastid (lh_ca (lsub ?a ?b ?c0 ?d ?e ?g ?h ?i ?j)) = _ => destruct (lsub_same a b c0 d e g h i j) as [[_ [N _]] L] end.
+    rewrite L, N.
     unfold lload in LD. destruct k.
     + apply init_p2p_ok in LD. tauto.
     + apply init_sys_ok in LD. destruct LD as [-> [L2 _]]. exact L2.
@@ -598,7 +576,7 @@ Qed.
 Definition lnonack (fr : lframe) : bool := match fr with LCtrl 202 (Some _) => false | _ => true end.
 Lemma lplain_nonack o : all_lout lplain o -> all_lout lnonack o.
 Proof.
-  intros H e He. specialize (H e He). destruct (snd e) as [code sq| | |]; cbn in H; try discriminate; [|reflexivity].
+  intros H e He. specialize (H e He). destruct (snd e) as [code sq| |]; cbn in H; try discriminate.
   destruct sq; [discriminate|]. unfold lnonack. destruct code as [|p|p]; try reflexivity.
   do 8 (destruct p; try reflexivity).
 Qed.
@@ -614,9 +592,7 @@ Proof.
     by (intros; apply lplain_nonack; apply all_lout_one; reflexivity).
   destruct o; unfold lstep; cbn [x_st x_ca].
   - destruct (lattached c sid); cbn [fst snd x_ca]; [split; [apply PL|intros c' H; now inv H]|].
-    destruct (lsub k _ f s c 0 sid _ _) as [h|] eqn:LS; cbn [fst snd x_ca].
-    + split; [apply lplain_nonack; eapply lsub_out; exact LS|]. intros c' H. inv H. apply lsub_same in LS. tauto.
-    + split; [apply lplain_nonack; apply all_lout_one; reflexivity|discriminate].
+    split; [apply lplain_nonack; apply lsub_out|]. intros c' H. inv H. apply lsub_same.
   - destruct (lattached c sid); cbn [fst snd x_ca]; [|split; [apply PL|intros c' H; now inv H]].
     destruct unsub; cbn [fst snd x_ca lh_ca lh_out]; [|split; [apply PL|intros c' H; now inv H]].
     destruct (lleave_unsub k f s c 0 sid (sess_uid sm sid)) as [[[s1 co] n1] o1] eqn:LU. cbn [fst snd x_ca].
@@ -657,12 +633,10 @@ Proof.
   destruct x as [s cx n0]. destruct o; unfold lstep; cbn [x_st x_ca].
   - destruct cx as [c|].
     + destruct (lattached c sid); cbn [fst x_st]; [reflexivity|].
-      destruct (lsub LSys _ f s c 0 sid _ _) as [h|] eqn:LS; cbn [fst x_st]; [|reflexivity].
-      apply lsub_same in LS. destruct LS as [[N _] _]. exact N.
-    + destruct (lload LSys ua ub f s 0 (sess_uid sm sid)) as [code n1|s1 c n1 ns] eqn:LD; cbn [fst x_st]; [reflexivity|].
+      apply lsub_same.
+    + destruct (lload LSys f s 0 (sess_uid sm sid) (if byname then 0%N else peer ua ub (sess_uid sm sid))) as [code n1|s1 c n1 ns] eqn:LD; cbn [fst x_st]; [reflexivity|].
       unfold lload in LD. apply init_sys_ok in LD. destruct LD as [-> _].
-      destruct (lsub LSys _ f s c n1 sid _ _) as [h|] eqn:LS; cbn [fst x_st]; [|reflexivity].
-      apply lsub_same in LS. destruct LS as [[N _] _]. exact N.
+      apply lsub_same.
   - destruct cx as [c|]; [destruct (lattached c sid)|]; cbn [fst x_st]; try reflexivity.
     destruct unsub; cbn [fst x_st lh_st]; [|reflexivity].
     destruct (lleave_unsub LSys f s c 0 sid (sess_uid sm sid)) as [[[s1 co] n1] o1] eqn:LU. cbn [fst x_st].
